@@ -841,6 +841,184 @@ IMPL_TIME_LIMIT = 20.0
 IMPL_TIME_LIMIT_BIG = 300.0
 
 
+def ambiguous_prop_version(cfg: str, ver_name: str) -> bool:
+    """Header number 11 with 80-byte records exists twice: CS:GO's V11 and Black Mesa's variant of the lightmapped format. A file
+    says which one it holds only through its BSP version (20 = the branch Black Mesa is on, anything else = not Black Mesa); the two
+    other combinations (V11 records in a v20 file, Mesa records elsewhere) cannot be told from the file and are not claimed to be
+    detected - there the caller names the format, as the API allows (`bsp.static_prop_version = ...`)."""
+    return (ver_name == 'V11') == (cfg == 'v20') if ver_name in ('V11', 'V_LIGHTMAP_MESA') else False
+
+
+# views that the history `from_empty` empties in the file that is read first (nothing else refers to their objects)
+EMPTIED = ['props', 'detail_props', 'overlays', 'cubemaps']
+
+
+def from_empty(base: str, workdir: str, cfg: str, hdr: int, seed: int, feats: set[str], size: int,
+               read_first: bool = True, named: str | None = None) -> tuple[dict[str, str], Gen | None, str]:
+    """History: a file whose static-prop / detail-prop / overlay / cubemap tables are EMPTY (static-prop header number `hdr`) is read -
+    every view, so that whatever a reader records about the file is recorded -, then a generated world is assigned to the SAME BSP
+    object, saved and re-read by a fresh object. Nobody names the static-prop format: the object that read the empty table chooses
+    it (public attribute `static_prop_version`), the world is generated for that choice, and the fresh reader has to arrive at the
+    same format from the file alone.  Returns (view -> difference, the generated world's Gen, name of the chosen format).
+    With read_first=False the object that opens the file reads NOTHING before the world is assigned: no format is recorded, the
+    writer falls back to its default (the world is generated for it; what was used is read off the object after the save).
+    With `named` the caller names the format (`bsp.static_prop_version = ...`) BEFORE the empty lump is read: reading must not
+    change it."""
+    import srctools.bsp as B
+    path = os.path.join(workdir, 'hist.bsp')
+    shutil.copy(base, path)
+    res: dict[str, str] = {}
+    exp_ver = {'l4d2': B.GameVersion.L4D2, 'vitamin': B.GameVersion.VITAMINSOURCE}.get(cfg)
+
+    def assign(b: Any, w: dict[str, Any]) -> None:
+        b.out_comma_sep = w['out_comma_sep']
+        for v in ['ents'] + [v for v in VIEWS if v != 'ents']:
+            if not (v == 'bmodels' and w[v] is None):
+                setattr(b, v, w[v])
+    try:
+        with contextlib.redirect_stdout(io.StringIO()), time_limit(IMPL_TIME_LIMIT):
+            b0 = B.BSP(path)
+            apply_config(b0, cfg)
+            for k in range(40):     # (a world without nodes has no brush models: the base file's models would dangle)
+                w0 = Gen((seed ^ 0x5A5A) + k, cfg, 'V5', {'physics'}, 2).build()
+                if w0['bmodels'] is not None:
+                    break
+            for v in EMPTIED:
+                w0[v] = []
+            assign(b0, w0)
+            # the file to start from: an empty static-prop lump under header number `hdr` (named through a format of that number;
+            # the header field is also set directly, for a writer that leaves it alone)
+            b0.static_prop_version = next(v for v in B.StaticPropVersion if v.version == hdr and v.name in PROP_VERSIONS)
+            b0.game_lumps[b'sprp'].version = hdr
+            b0.save(path)
+            b1 = B.BSP(path, exp_ver)
+            if b1.game_lumps[b'sprp'].version != hdr:
+                res['!save'] = (f'file with empty tables: saved with static_prop_version = {b0.static_prop_version.name}, the static-prop lump has '
+                                f'header number {b1.game_lumps[b"sprp"].version}, not {hdr}')
+                return res, None, '?'
+            if named is not None:
+                b1.static_prop_version = B.StaticPropVersion[named]
+            for v in VIEWS if read_first else []:
+                val = getattr(b1, v)
+                if v in EMPTIED and len(val):
+                    res[v] = f'{v}: the table written empty is read back with {len(val)} entries'
+                    return res, None, '?'
+            chosen = b1.static_prop_version if read_first else B.StaticPropVersion.DEFAULT
+    except (Exception, ImplTimeout) as e:      # noqa: BLE001
+        res['!save'] = f'file with empty tables: {type(e).__name__}: {e}'[:300]
+        return res, None, '?'
+    if named is not None and chosen.name != named:
+        res['props'] = f'the format named by the caller ({named}) is {chosen.name} after the empty static-prop lump (header number {hdr}) was read'
+        return res, None, chosen.name
+    if chosen.name not in PROP_VERSIONS:
+        res['props'] = f'after reading an empty static-prop lump with header number {hdr} the format is {chosen.name}'
+        return res, None, chosen.name
+    g = None
+    for k in range(40):     # a world with at least one static prop and one detail prop
+        g = Gen(seed + k, cfg, chosen.name, set(feats) | {'model_detail', 'sprite_detail', 'shape_detail'}, size)
+        w = g.build()
+        if w['props'] and w['detail_props'] and w['bmodels'] is not None:
+            break
+    expect = canon_views(w, lambda n: w[n], g.vit, chosen)
+    try:
+        with contextlib.redirect_stdout(io.StringIO()), time_limit(IMPL_TIME_LIMIT):
+            assign(b1, w)
+            b1.save(path)
+    except (Exception, ImplTimeout) as e:      # noqa: BLE001
+        res['!save'] = f'{type(e).__name__}: {e}'[:300]
+        return res, g, chosen.name
+    if not read_first and b1.static_prop_version is not chosen:
+        res['props'] = f'nothing was read and no format named: the writer used {b1.static_prop_version.name}, not the documented default {chosen.name}'
+        return res, g, b1.static_prop_version.name
+    try:
+        with time_limit(IMPL_TIME_LIMIT):
+            b2 = B.BSP(path, exp_ver)
+            if named is not None and ambiguous_prop_version(cfg, named):
+                b2.static_prop_version = chosen
+            got = canon_views(b2, lambda n: getattr(b2, n), g.vit, chosen)
+            if b2.static_prop_version is not chosen:
+                res['props'] = (f'props written in the format chosen when the empty lump was read ({chosen.name}; header number {hdr}, BSP version '
+                                f'{b2.version}) are re-read as {b2.static_prop_version.name}')
+    except (Exception, ImplTimeout, RecursionError) as e:      # noqa: BLE001
+        res['!read'] = f'{type(e).__name__}: {e}'[:300]
+        return res, g, chosen.name
+    for v in VIEWS:
+        a, c = expect[v], got[v]
+        if v in GROWING and isinstance(a, list) and isinstance(c, list) and len(c) >= len(a):
+            c = c[:len(a)]
+        d = first_diff(a, c, v)
+        if d and v not in res:
+            res[v] = d
+        elif d:
+            res[v] += '; first difference: ' + d
+    return res, g, chosen.name
+
+
+# attribute of the first object of a view that is pushed out of its on-disk field (value that must be rejected by save())
+BREAKABLE = {'props': ('solidity', 256), 'cubemaps': ('size', 1 << 31), 'overlays': ('id', 1 << 31), 'visleafs': ('cluster_id', 40000),
+             'planes': ('dist', 1e40), 'nodes': ('area_ind', 40000), 'detail_props': ('leaf', 70000)}
+
+
+def retry_after_reject(base: str, workdir: str, g: Gen, view: str) -> dict[str, str] | None:
+    """Error path: a world is assigned, one value of `view` does not fit its field, save() raises - the caller repairs the value IN
+    PLACE and saves the same BSP object again.  The second save must write the world (nothing may have been dropped when the first
+    one gave up half-way); re-read by a fresh object and compared view by view.  None: the world has no object in `view`, or the
+    value was not rejected (that is the business of the rejection probes)."""
+    import srctools.bsp as B
+    w = g.build()
+    if not w[view]:
+        return None
+    attr, bad = BREAKABLE[view]
+    obj = w[view][0]
+    good = getattr(obj, attr)
+    path = os.path.join(workdir, 'retry.bsp')
+    shutil.copy(base, path)
+    ver = B.StaticPropVersion[g.prop_ver]
+    expect = canon_views(w, lambda n: w[n], g.vit, ver)
+    res: dict[str, str] = {}
+    exp_ver = {'l4d2': B.GameVersion.L4D2, 'vitamin': B.GameVersion.VITAMINSOURCE}.get(g.cfg)
+    with contextlib.redirect_stdout(io.StringIO()), time_limit(IMPL_TIME_LIMIT):
+        b = B.BSP(path)
+        apply_config(b, g.cfg)
+        b.static_prop_version = ver
+        b.out_comma_sep = w['out_comma_sep']
+        for v in ['ents'] + [v for v in VIEWS if v != 'ents']:
+            if not (v == 'bmodels' and w[v] is None):
+                setattr(b, v, w[v])
+        try:
+            setattr(obj, attr, bad)
+            b.save(path)
+        except Exception:      # noqa: BLE001 - rejected (on assignment or on save), as it must be
+            pass
+        else:
+            return None
+        finally:
+            setattr(obj, attr, good)
+    try:
+        with contextlib.redirect_stdout(io.StringIO()), time_limit(IMPL_TIME_LIMIT):
+            b.save(path)
+    except (Exception, ImplTimeout) as e:      # noqa: BLE001
+        return {'!save': f'second save, after the rejected value was repaired in place: {type(e).__name__}: {e}'[:300]}
+    try:
+        with time_limit(IMPL_TIME_LIMIT):
+            b2 = B.BSP(path, exp_ver)
+            if ambiguous_prop_version(g.cfg, g.prop_ver):
+                b2.static_prop_version = ver
+            got = canon_views(b2, lambda n: None if (n == 'bmodels' and w['bmodels'] is None) else getattr(b2, n), g.vit, ver)
+    except (Exception, ImplTimeout, RecursionError) as e:      # noqa: BLE001
+        return {'!read': f'file of the second save: {type(e).__name__}: {e}'[:300]}
+    for v in VIEWS:
+        if v == 'bmodels' and w[v] is None:
+            continue
+        a, c = expect[v], got[v]
+        if v in GROWING and isinstance(a, list) and isinstance(c, list) and len(c) >= len(a):
+            c = c[:len(a)]
+        d = first_diff(a, c, v)
+        if d:
+            res[v] = d
+    return res
+
+
 def roundtrip(base: str, workdir: str, g: Gen, only: list[str] | None = None) -> dict[str, str]:
     """Assign the generated world to a copy of the base file, save, re-read, compare. Returns view -> difference.
     The special key '!save' / '!read' reports an exception."""
@@ -876,8 +1054,14 @@ def roundtrip(base: str, workdir: str, g: Gen, only: list[str] | None = None) ->
             if b2.lump_layout is not b.lump_layout:
                 res['!read'] = 'layout of the re-read file differs from the layout written'
                 return res
-            b2.static_prop_version = ver
+            # the re-read file has to say by itself which static-prop format it is in (header number + record size + BSP version);
+            # only the one pair of formats the file cannot tell apart is named by the caller (see ambiguous_prop_version)
+            if ambiguous_prop_version(g.cfg, g.prop_ver):
+                b2.static_prop_version = ver
             got = canon_views(b2, lambda n: None if (n == 'bmodels' and w['bmodels'] is None) else getattr(b2, n), g.vit, ver)
+            if w['props'] and b2.static_prop_version is not ver and (only is None or 'props' in only):
+                res['props'] = (f'static-prop format detected on re-read is {b2.static_prop_version.name}, written as {ver.name} '
+                                f'(header number {b2.game_lumps[b"sprp"].version}, BSP version {b2.version})')
     except (Exception, ImplTimeout, RecursionError) as e:      # noqa: BLE001
         res['!read'] = f'{type(e).__name__}: {e}'[:300]
         return res
@@ -912,7 +1096,8 @@ def roundtrip(base: str, workdir: str, g: Gen, only: list[str] | None = None) ->
         try:
             with time_limit(limit):
                 b3 = B.BSP(path, exp_ver)
-                b3.static_prop_version = ver
+                if ambiguous_prop_version(g.cfg, g.prop_ver):
+                    b3.static_prop_version = ver
                 got3 = canon_views(b3, lambda n: None if (n == 'bmodels' and w['bmodels'] is None) else getattr(b3, n), g.vit, ver)
         except (Exception, ImplTimeout, RecursionError) as e:      # noqa: BLE001
             res['!read'] = f'after the second save: {type(e).__name__}: {e}'[:300]
